@@ -72,6 +72,8 @@ void h_next_poll(void) {
   __CPROVER_assume(mm.m_pollMessages.n <= PQ_CAP && w < mm.m_pollMessages.n && g_lastPollOrder < 0x7fffff00u);
   /* invariant J: no queued message lies beyond the window [.., last + priority] */
   for (int i = 0; i < PQ_CAP; i++) __CPROVER_assume(m[i].m_pollOrder <= g_lastPollOrder + (unsigned)m[i].m_pollPriority);
+  /* ... nor before the virtual time of the last selection (else it would be selected over and over until it has caught up) */
+  for (int i = 0; i < PQ_CAP; i++) __CPROVER_assume(m[i].m_pollOrder >= g_lastPollOrder);
   unsigned last0 = g_lastPollOrder; struct Message before[PQ_CAP]; for (int i = 0; i < PQ_CAP; i++) before[i] = m[i];
   size_t n0 = mm.m_pollMessages.n;
   struct Message* r = MM_getNextPoll(&mm);
@@ -84,6 +86,7 @@ void h_next_poll(void) {
     __CPROVER_assert(r->m_pollOrder == before[ri < PQ_CAP ? ri : 0].m_pollOrder + (unsigned)r->m_pollPriority, "[C17] the selected message advances by its priority (frequency proportional to 1/priority)");
     __CPROVER_assert(r->m_pollOrder <= g_lastPollOrder + (unsigned)r->m_pollPriority, "[C17] window invariant preserved for the selected message");
     __CPROVER_assert(m[w].m_pollOrder <= g_lastPollOrder + (unsigned)m[w].m_pollPriority, "[C17] window invariant preserved for every other queued message (bounded waiting)");
+    __CPROVER_assert(m[w].m_pollOrder >= g_lastPollOrder && r->m_pollOrder >= g_lastPollOrder, "[C17] window invariant preserved: no queued message lies before the virtual time of the last selection (bounded waiting)");
     __CPROVER_assert(mm.m_pollMessages.n == n0 && g_base_push_calls == 1 && g_heap_valid, "[C17] the selected message is re-inserted, the queue stays a heap");
     __CPROVER_assert(g_locks == 0, "[C04] lock and unlock are balanced");
     CANARY("selected");
@@ -119,8 +122,29 @@ void h_priority(void) {
   if (nondet_bool()) { r = Message_setPollPriority(&m, p); } else { Message_setUsedByCondition(&m); r = 0; }
   __CPROVER_assert(m.m_pollPriority == 0 || m.m_pollOrder <= g_lastPollOrder + (unsigned)m.m_pollPriority || m.m_pollOrder == o0, "[C17] a pollable message is never placed beyond the window");
   __CPROVER_assert(m.m_pollOrder == o0 || m.m_pollOrder == g_lastPollOrder + (unsigned)m.m_pollPriority, "[C17] a priority change moves the message at most to the end of the current window (not before all others)");
+  __CPROVER_assert(m.m_pollPriority == 0 || o0 < g_lastPollOrder || m.m_pollOrder >= g_lastPollOrder, "[C17] a priority change never moves a message before the virtual time of the last selection");
   __CPROVER_assert(p0 == 0 || m.m_pollOrder <= o0, "[C17] a priority change of an already pollable message never postpones it (bounded waiting under any sequence of priority changes)");
   __CPROVER_assert(!r || (p0 == 0 && m.m_pollPriority > 0), "[C17] the caller is told to queue the message exactly when it became pollable");
   __CPROVER_assert(!(m.m_usedByCondition) || m.m_pollPriority == 0 || m.m_pollPriority <= POLL_PRIORITY_CONDITION || m.m_pollPriority == p0, "[C17] messages used by conditions are polled at least with the condition priority");
   if (r) { CANARY("became pollable"); }
+}
+
+/* adding a poll message (new definition with a priority, condition message to the front, message that became pollable): it enters the
+   queue inside the window [last, last + priority], whatever its poll order was (a freshly constructed message has order 0) */
+void h_add_poll(void) {
+  struct MessageMap mm = nondet_MM(); struct Message m[PQ_CAP]; struct Message x = nondet_Message(); _Bool front = nondet_bool();
+  for (int i = 0; i < PQ_CAP; i++) { m[i] = nondet_Message(); mm.m_pollMessages.c[i] = &m[i]; }
+  g_lastPollOrder = nondet_uint(); g_heap_valid = 1; g_base_push_calls = 0; g_locks = 0;
+  __CPROVER_assume(mm.m_pollMessages.n <= PQ_CAP - 1 && g_lastPollOrder < 0x7fffff00u && x.m_pollPriority <= 9 && x.m_pollOrder < 0x7fffff00u);
+  /* the message comes from its constructor (order 0) or from setPollPriority (inside the window) */
+  __CPROVER_assume(x.m_pollOrder == 0 || (x.m_pollOrder >= g_lastPollOrder && x.m_pollOrder <= g_lastPollOrder + (unsigned)x.m_pollPriority));
+  size_t n0 = mm.m_pollMessages.n;
+  MM_addPollMessage(&mm, front, &x);
+  if (x.m_pollPriority == 0) { __CPROVER_assert(mm.m_pollMessages.n == n0, "[C17] a message without poll priority is not queued"); }
+  else {
+    __CPROVER_assert(mm.m_pollMessages.n == n0 + 1 && g_heap_valid && g_locks == 0, "[C17] a message with poll priority is queued once");
+    __CPROVER_assert(x.m_pollOrder >= g_lastPollOrder, "[C17] an added message does not enter the queue before the virtual time of the last selection (it would be polled alone until it has caught up)");
+    __CPROVER_assert(x.m_pollOrder <= g_lastPollOrder + (unsigned)x.m_pollPriority, "[C17] an added message enters inside the window");
+    CANARY("added");
+  }
 }
